@@ -276,64 +276,151 @@ def inconsistent_assumptions_after_history(v, prop="", text="", **kw):
     exc = d.get("exc") or ""
     if "InconsistentAssumptions" not in exc or not text:
         return None
-    if prop == "C20":
-        r = fresh_child({"text": text, "requests": [], "try_matrices": True})
-        if r and all(x == "ok" for x in r.get("matrices", {}).values()):
-            return f"{prop}-sympy-inconsistent-assumptions-after-history"
-        return None
+    # The inconsistent assumptions are a property of the process, not only of its history: a fresh interpreter can meet them
+    # as well (tools/sympy_floor_fresh.py), so one raising child decides nothing.  A text on which gotranx raises in every
+    # process is not this mechanism: all of the children must be tried and all must raise for the violation to stand.
     be = d.get("backend") or "numpy"
-    r = fresh_child({"text": text, "requests": [{"key": "k", "backend": be if be in ("numpy", "jax", "c") else "numpy", "schemes": ["explicit_euler", "generalized_rush_larsen"]}]})
-    if r and not r.get("errors") and r.get("sha"):
-        return f"{prop}-sympy-inconsistent-assumptions-after-history"
+    for _ in range(4):
+        if prop == "C20":
+            r = fresh_child({"text": text, "requests": [], "try_matrices": True})
+            if r and r.get("matrices") and all(x == "ok" for x in r["matrices"].values()):
+                return f"{prop}-sympy-inconsistent-assumptions-after-history"
+        else:
+            r = fresh_child({"text": text, "requests": [{"key": "k", "backend": be if be in ("numpy", "jax", "c") else "numpy", "schemes": ["explicit_euler", "generalized_rush_larsen"]}]})
+            if r and not r.get("errors") and r.get("sha"):
+                return f"{prop}-sympy-inconsistent-assumptions-after-history"
     return None
 
 
-def history_dependent_rounding_fold(v, prop="", text="", **kw):
-    """Counterfactual in a FRESH interpreter: sympy folds floor()/ceiling() of some bounded arguments to a constant while the
-    expression is built, and the constant depends on what was evaluated earlier in the process (tools/sympy_floor_history.py).
-    The violation is attributed to that mechanism iff the symbolic stage of the offending quantity holds fewer floor/ceiling
-    nodes in this (long-lived worker) process than in a fresh interpreter loading the same text."""
+def rounding_nodes(ex):
+    import sympy
+
+    return len(ex.atoms(sympy.floor)) + len(ex.atoms(sympy.ceiling))
+
+
+def load_with_rounding_unevaluated(text):
+    """The same text loaded by gotranx with sympy.floor / sympy.ceiling built unevaluated, so that no rounding node is
+    folded while the expression is built (gotranx looks the functions up as attributes of the sympy module)."""
+    import sympy
+
+    from . import common as C
+
+    C.gx()
+    of, oc = sympy.floor, sympy.ceiling
+
+    def keep(cls):
+        def build(*a, **k):
+            return cls(*a, evaluate=False)
+
+        return build
+
+    sympy.floor, sympy.ceiling = keep(of), keep(oc)
+    try:
+        return C.load_text(text)
+    finally:
+        sympy.floor, sympy.ceiling = of, oc
+
+
+def numeric_value(ex, vals):
+    """Value of a sympy expression with every free symbol replaced by a Float (the replacement rebuilds - and so
+    evaluates numerically - every node above a symbol)."""
+    import sympy
+
+    rep = {s_: sympy.Float(vals(s_.name)) for s_ in ex.free_symbols}
+    r = sympy.N(ex.xreplace(rep) if rep else ex, 30)
+    r = complex(r)
+    if r.imag != 0 or r.real != r.real or abs(r.real) == float("inf"):
+        raise ValueError("not a finite real")
+    return r.real
+
+
+def wrongly_folded_rounding(ode, text, name, known=None):
+    """-> name of an assignment in the closure of `name` whose symbolic stage in `ode` (a) holds fewer floor/ceiling nodes
+    than the stage of the same text loaded with the rounding functions kept unevaluated and (b) is a different function:
+    the two stages differ in value at an assignment of their free symbols.  (a)+(b) = a rounding node was folded to a wrong
+    constant while the expression was built.  A legitimate fold (floor(2.5) -> 2, floor(floor(x)) -> floor(x)) has (a) only."""
+    lu = load_with_rounding_unevaluated(text)
+    if not lu.ok:
+        return None
+    un = lu.value
+    known = known or {}
+    fallbacks = (lambda n: known.get(n, 0.37), lambda n: 1.3 + (sum(map(ord, n)) % 7) / 8, lambda n: -0.8 - (sum(map(ord, n)) % 5) / 4, lambda n: 0.37)
+    seen, todo = set(), [name]
+    while todo:
+        k = todo.pop()
+        if k in seen:
+            continue
+        seen.add(k)
+        try:
+            eh, eu = ode[k].expr, un[k].expr
+        except Exception:
+            continue
+        for s_ in eh.free_symbols | eu.free_symbols:
+            if s_.name in ode._lookup and hasattr(ode._lookup[s_.name], "expr"):
+                todo.append(s_.name)
+        if rounding_nodes(eh) >= rounding_nodes(eu):
+            continue
+        for vals in fallbacks:
+            try:
+                a, b = numeric_value(eh, vals), numeric_value(eu, vals)
+            except Exception:
+                continue
+            if abs(a - b) > 1e-9 * (1.0 + abs(b)):
+                return {"assignment": k, "folded_stage": str(eh)[:200], "unevaluated_stage": str(eu)[:200], "values": [a, b]}
+    return None
+
+
+def history_dependent_rounding_fold(v, prop="", text="", ref=None, **kw):
+    """sympy folds floor()/ceiling() of some bounded arguments (floor(0*beta7), floor(0.25/(Abs(E)+0.75))) to a constant
+    while the expression is built, and the constant is not a function of the text: it depends on what the process evaluated
+    before (tools/sympy_floor_history.py) and it also varies between fresh interpreters (tools/sympy_floor_fresh.py: the
+    assumptions of an unevaluated product such as Mul(0, x, evaluate=False) are inconsistent - is_zero False, is_negative
+    True - in about one process out of five).  An earlier version decided this by a fresh-interpreter counterfactual; the
+    fresh interpreter being as unreliable as the worker, the decision is now made in this process and deterministically:
+    the object the violating code was generated from holds a wrongly folded rounding node (wrongly_folded_rounding) in the
+    closure of the violating quantity."""
     d = v.get("detail", {})
     name = (d.get("root_cause") or {}).get("name") or d.get("name")
     if not text or not name or v.get("kind") not in ("value", "numerics_differ_after_reload", "value_differs", "column_differs", "sub_model_value_differs_from_full_model", "wrong_slot_or_value", "value_differs_from_renamed_twin"):
         return None
-    if count_calls(text, ["floor"]) == 0:
-        return None
-    import json
-    import subprocess
-
-    from ..core import env
-    from ..exec import fresh as FR
     from . import common as C
 
-    class _Lo:  # the object the violating code was generated from, if the check handed it over; else a reload
-        value = kw.get("ode")
-        ok = kw.get("ode") is not None
-
-    lo = _Lo if _Lo.ok else C.load_text(text)
-    if not lo.ok:
-        return None
-    if name not in lo.value._lookup:
-        # scheme functions report the state: use its derivative
-        name = f"d{name}_dt"
-        if name not in lo.value._lookup:
-            return None
-    here = FR.count_rounding_nodes(lo.value, name)
-    e = env.child_env("0")
-    e["VERIF_REPO"] = env.REPO
-    p = subprocess.run(["/venv/bin/python", "-m", "vf.exec.fresh"], input=json.dumps({"text": text, "requests": [], "count_rounding_nodes_of": name}), capture_output=True, text=True, env=e, cwd=env.VERIF, timeout=300)
-    fresh = fresh_repr = None
-    for ln in p.stdout.splitlines():
-        if ln.startswith("RESULT "):
-            fresh = json.loads(ln[7:]).get("count")
-            fresh_repr = json.loads(ln[7:]).get("srepr")
-    if fresh is not None and here < fresh:
-        d["rounding_nodes_here_vs_fresh_interpreter"] = [here, fresh]
-        return f"{prop}-sympy-folds-floor-to-a-history-dependent-constant"
-    if fresh_repr is not None and fresh_repr != FR.closure_srepr(lo.value, name):
-        # the floor is folded in both processes, but to different constants (floor(0*x): 0 in a fresh interpreter, -1 here)
-        d["symbolic_stage_differs_from_fresh_interpreter"] = True
-        return f"{prop}-sympy-folds-floor-to-a-history-dependent-constant"
+    cands = []
+    if kw.get("ode") is not None:  # the object the violating code was generated from, if the check handed it over
+        cands.append((kw["ode"], text))
+    else:
+        cands.append((None, text))
+    if isinstance(kw.get("saved"), str) and kw["saved"] != text:  # C11: the model re-loaded from the saved text
+        cands.append((None, kw["saved"]))
+    known = {}
+    pt = v.get("_point") or d.get("point")
+    if ref is not None:
+        try:
+            full = dict(ref.default_point(), **(pt or {}))
+            known.update({k: float(x) for k, x in full.items()})
+            known["time"] = known.get("t", 0.0)
+            for k, x in ref.evaluate(full)[0].items():
+                if not isinstance(x, Exception):
+                    known[k] = float(x.v)
+        except Exception:
+            pass
+    for ode, txt in cands:
+        if count_calls(txt, ["floor", "ceil", "ceiling"]) == 0:
+            continue
+        if ode is None:
+            lo = C.load_text(txt)
+            if not lo.ok:
+                continue
+            ode = lo.value
+        nm = name
+        if nm not in ode._lookup:
+            nm = f"d{name}_dt"  # scheme functions report the state: use its derivative
+            if nm not in ode._lookup:
+                continue
+        w = wrongly_folded_rounding(ode, txt, nm, known)
+        if w:
+            d["wrongly_folded_rounding_node"] = w
+            return f"{prop}-sympy-folds-floor-to-a-history-dependent-constant"
     return None
 
 
